@@ -40,6 +40,10 @@ pub enum StubScn {
         /// 0 SipHash fixed keys, 1 constant 0, 2 constant u64::MAX, 3 identity of the last write
         hasher: u8,
         reqs: Vec<u64>,
+        /// the requests are spread over the original stub and this many clones of it (a clone
+        /// must send equal requests where the original sends them)
+        #[serde(default)]
+        clones: u8,
     },
     Retry {
         /// result of the n-th attempt: 0 ok, 1 server error, 2 deadline exceeded, 3 shutdown
@@ -109,6 +113,7 @@ pub fn gen(rng: &mut Rng) -> StubScn {
             backends: rng.range(1, 5) as usize,
             hasher: rng.below(4) as u8,
             reqs: (0..rng.range(1, 12)).map(|_| *rng.pick(&[0u64, 1, 2, 3, 7, u64::MAX, 1 << 63, 12345])).collect(),
+            clones: if rng.chance(500) { rng.range(1, 3) as u8 } else { 0 },
         },
         _ => {
             let n = rng.range(1, 8) as usize;
@@ -153,8 +158,16 @@ impl Stub for Backend {
     }
 }
 
+/// A hasher builder with per-instance state (the mode). Its `Default` is mode 4, a fifth hash
+/// function that no scenario asks for, so a copy that falls back to the default is visible.
 #[derive(Clone)]
 struct FixedHasher(u8);
+
+impl Default for FixedHasher {
+    fn default() -> Self {
+        FixedHasher(4)
+    }
+}
 struct FixedH {
     mode: u8,
     sip: std::collections::hash_map::DefaultHasher,
@@ -173,6 +186,7 @@ impl Hasher for FixedH {
             0 => self.sip.finish(),
             1 => 0,
             2 => u64::MAX,
+            4 => !self.sip.finish(),
             _ => self.last,
         }
     }
@@ -291,13 +305,20 @@ pub fn run(scn: &StubScn, tape: Tape) -> RunOutput {
                         }));
                     }
                 }
-                StubScn::Hash { backends, hasher, reqs } => {
+                StubScn::Hash { backends, hasher, reqs, clones } => {
                     let stubs: Vec<Backend> = (0..backends).map(|i| Backend { idx: i, sim: sim.clone(), yields: 0, sleep_ms: 0 }).collect();
                     let ch = ConsistentHash::with_hasher(stubs, FixedHasher(hasher)).expect("len fits u64");
                     let sim_t = sim.clone();
                     tasks.push(sim.spawn("hash_caller", async move {
-                        for r in reqs {
-                            let res = ch.call(context::current(), r).await;
+                        let mut handles = vec![ch.clone()];
+                        for _ in 0..clones {
+                            // clones of clones too
+                            let c = handles.last().unwrap().clone();
+                            handles.push(c);
+                        }
+                        handles[0] = ch;
+                        for (i, r) in reqs.into_iter().enumerate() {
+                            let res = handles[i % handles.len()].call(context::current(), r).await;
                             sim_t.log(EvKind::Note { what: "hash_done", a: r as i64, b: result_code(&res) });
                         }
                     }));
